@@ -97,6 +97,21 @@ int main() {
     if (router->existsOrthogonalSegmentOverlap(true)) { printf("vertical connector with two Z-bend connectors across it: a middle segment is still collinear with it after nudging\n"); bad++; }
     delete router;
   }
+  // shared paths with a common end are NOT nudged apart (option off): X and Y leave one point together; Z shares no end point with them and only meets X's
+  // last stretch -- Z must still be separated from both
+  {
+    Router *router = new Router(OrthogonalRouting);
+    router->setRoutingParameter(segmentPenalty, 50); router->setRoutingParameter(idealNudgingDistance, 10);
+    router->setRoutingOption(nudgeSharedPathsWithCommonEndPoint, false);
+    const double R[7][4] = {{0,0,100,100},{0,120,100,180},{400,220,500,280},{400,320,500,380},{400,-180,500,-120},{240,-400,260,-380},{240,580,260,600}};
+    for (int i = 0; i < 7; ++i) { Rectangle rect(Point(R[i][0], R[i][1]), Point(R[i][2], R[i][3])); new ShapeRef(router, rect, i + 1); }
+    new ConnRef(router, ConnEnd(Point(100, 150), ConnDirRight), ConnEnd(Point(400, 350), ConnDirLeft), 10);   // Z
+    new ConnRef(router, ConnEnd(Point(100, 50), ConnDirRight), ConnEnd(Point(400, -150), ConnDirLeft), 11);   // Y
+    new ConnRef(router, ConnEnd(Point(100, 50), ConnDirRight), ConnEnd(Point(400, 250), ConnDirLeft), 12);    // X
+    router->processTransaction();
+    if (router->existsOrthogonalSegmentOverlap()) { printf("three connectors, two of them sharing a start point (shared paths not nudged): a connector without a common end point runs along another one\n"); bad++; }
+    delete router;
+  }
   // a fixed straight connector and a movable one hugging an obstacle at the same coordinate: separated in BOTH creation orders
   for (int order = 0; order < 2; ++order) for (int nd = 4; nd <= 10; nd += 6) {
     Router *router = new Router(OrthogonalRouting);
@@ -317,6 +332,40 @@ def jobs(tier):
                   bound="0 to 2 earlier segments in the region (loops unwound 5 times with unwinding assertions); every answer of overlapsWith / shouldAlignWith / canAlignWith / the shared-path set per pair",
                   domain="every such region prefix; the fragment is anchored on its neighbours (the two channel-edge blocks), so a rewritten loop is still extracted",
                   expect=[r'h_pairs\.assertion']))
+    # ---- buildOrthogonalNudgingOrderInfo, one pair of connectors: the pair is recorded as "shared path with a common end point" (which later turns its separation
+    #      into a zero-gap equality) only on evidence from THIS pair's own crossing detection.  Loop body of the pair loop; a scalar the body uses but does not
+    #      declare itself is carried state and arrives with an arbitrary value.
+    bo = slice_func("libavoid/orthogonal.cpp", r'^void ImproveOrthogonalRoutes::buildOrthogonalNudgingOrderInfo\(void\)', "ImproveOrthogonalRoutes::buildOrthogonalNudgingOrderInfo")
+    _, pb = fragment_loop(bo, r'for \(size_t ind2 = ind1 \+ 1; ind2 < connRefs\.size\(\); \+\+ind2\)', "buildOrthogonalNudgingOrderInfo [body of the pair loop]")
+    cflags = slice_lines("libavoid/connector.h", r'^const unsigned int CROSSING_(NONE|TOUCHES|SHARES_PATH|SHARES_PATH_AT_END|SHARES_FIXED_SEGMENT) = \d+;', 5, "CROSSING_* flags")
+    carried = "" if re.search(r'\bunsigned int crossingFlags\b', strip_comments(pb.text)) else ", unsigned int& crossingFlags"
+    carried_call = "" if not carried else ", verif_carried_flags"
+    po_cxx = ("#include <verif_base.h>\n#include <vector>\n"
+              'extern "C" { unsigned w_count_for_segment(unsigned long i, int finalSegment); void w_recorded(unsigned a, unsigned b); extern unsigned verif_carried_flags; }\n'
+              "namespace Avoid {\n" + cflags.text + "\nenum ConnType { ConnType_None = 0, ConnType_PolyLine = 1, ConnType_Orthogonal = 2 };\n"
+              "// stand-ins: the crossing detector answers from the harness, the shared-path set records insertions there\n"
+              "class ConnRef { public: unsigned m_id; int m_type; unsigned id() const { return m_id; } ConnType routingType() const { return (ConnType)m_type; } };\n"
+              "class Polygon { public: size_t m_n; size_t size() const { return m_n; } };\n"
+              "class UnsignedPair { public: UnsignedPair(unsigned a, unsigned b) : first(a), second(b) {} unsigned first, second; };\n"
+              "struct VerifPairSet { void insert(const UnsignedPair& p) { w_recorded(p.first, p.second); } };\n"
+              "struct PtOrderMap { int verif_pad; };\n"
+              "class ConnectorCrossings { public: ConnectorCrossings(Polygon& poly, bool polyIsConn, Polygon& conn, ConnRef *polyConnRef = 0, ConnRef *connConnRef = 0) { crossingCount = 0; crossingFlags = 0; pointOrders = 0; }\n"
+              "    void countForSegment(size_t cIndex, const bool finalSegment) { crossingFlags = w_count_for_segment(cIndex, finalSegment ? 1 : 0); crossingCount = 0; }\n"
+              "    unsigned int crossingCount; unsigned int crossingFlags; PtOrderMap *pointOrders; };\n"
+              "static void verif_pair_body(size_t ind1, size_t ind2, ConnRef *conn, std::vector<ConnRef *>& connRefs, std::vector<Polygon>& connRoutes, bool buildSharedPathInfo, int& crossingsN,\n"
+              "        PtOrderMap& m_point_orders, VerifPairSet& m_shared_path_connectors_with_common_endpoints" + carried + ")\n" +
+              body_continue_to_return(pb) + "\n}\n"
+              "static Avoid::ConnRef verif_c[2]; static Avoid::ConnRef *verif_cd[2]; static Avoid::Polygon verif_r[2];\n"
+              'extern "C" void w_pair(int type1, int type2, unsigned long n1, unsigned long n2, int build) {\n'
+              "  verif_c[0].m_id = 11; verif_c[1].m_id = 12; verif_c[0].m_type = type1; verif_c[1].m_type = type2; verif_cd[0] = &verif_c[0]; verif_cd[1] = &verif_c[1]; verif_r[0].m_n = n1; verif_r[1].m_n = n2;\n"
+              "  std::vector<Avoid::ConnRef *> connRefs; connRefs._d = verif_cd; connRefs._n = 2; connRefs._cap = 2; std::vector<Avoid::Polygon> connRoutes; connRoutes._d = verif_r; connRoutes._n = 2; connRoutes._cap = 2;\n"
+              "  int crossingsN = 0; Avoid::PtOrderMap po; Avoid::VerifPairSet shared;\n"
+              "  Avoid::verif_pair_body(0, 1, &verif_c[0], connRefs, connRoutes, build != 0, crossingsN, po, shared" + carried_call + "); }\n")
+    js.append(Job("shared_path_recorded_only_on_this_pairs_evidence", "B", spec, "h_pair_order", cxx=po_cxx, defines=["JOB_pair_order"], slices=[bo, pb, cflags], unwind=6,
+                  flags=["--sat-solver", "cadical"], backend="sat:cadical", replay=replay_c10, timeout=600,
+                  bound="routes of 0 to 4 points (loops unwound 6 times with unwinding assertions); every answer of the crossing detector per segment",
+                  domain="one arbitrary pair of connectors of any routing types, with and without shared-path recording; carried scalar state arbitrary",
+                  expect=[r'h_pair_order\.assertion']))
     return js
 
 
@@ -338,6 +387,8 @@ ASSUMPTIONS = [
     "region_constrains_every_overlapping_pair is a BOUNDED stand-in (0 to 2 earlier segments; overlapsWith / shouldAlignWith / canAlignWith / the shared-path set answer arbitrarily per pair; "
     "Constraint is a recording stand-in): inside a region the current segment gets exactly one constraint against every earlier segment it overlaps unless both are fixed, with the full "
     "nudging distance unless an alignment/shared-path exemption applies",
+    "shared_path_recorded_only_on_this_pairs_evidence is a BOUNDED stand-in (routes of up to 4 points; ConnectorCrossings, ConnRef, Polygon behind stand-ins; carried scalar state arbitrary): "
+    "a pair of connectors enters the shared-path-with-common-end set exactly when recording is on and its OWN crossing detection reported CROSSING_SHARES_PATH_AT_END",
     "NOT decided (residue): which segments are built fixed, ordering of shared paths (PtOrderMap), channel computation (min/maxSpaceLimit), the channel-edge constraints and "
     "the later gap reduction inside a region, the resulting separation, checkpoints staying on routes",
 ]
